@@ -24,7 +24,7 @@ Blank nodes minted by rdflib never cross the protocol (footprints are compared b
 import warnings
 
 import core  # noqa: F401
-from rdflib import RDF, BNode, Graph, Literal, URIRef
+from rdflib import RDF, BNode, Dataset, Graph, Literal, URIRef
 from rdflib.collection import Collection
 
 warnings.filterwarnings("ignore", category=DeprecationWarning)
@@ -72,6 +72,28 @@ _T = list(_terms("b").values())
 assert len(set(_T)) == len(_T) and all(a != b for i, a in enumerate(_T) for b in _T[i + 1:])
 
 
+def _graph(kind):
+    """the graph the collection lives in: plain Graph over Memory, Graph over SimpleMemory, or a named graph
+    of a Dataset whose other graphs hold a decoy list under the same head (must stay untouched)"""
+    if kind == "simple":
+        return Graph(store="SimpleMemory"), None
+    if kind == "ds":
+        ds = Dataset()
+        g = ds.graph(URIRef("http://e/g"))
+        for other in (ds.graph(URIRef("http://e/other")), ds.default_context):
+            for hd in (BNode("c100"), URIRef("http://e/list")):
+                other.add((hd, RDF.first, Literal("decoy")))
+                other.add((hd, RDF.rest, RDF.nil))
+        return g, ds
+    return Graph(), None
+
+
+def _decoy_ok(ds):
+    if ds is None:
+        return True
+    return all(len(c) == 4 for c in (ds.graph(URIRef("http://e/other")), ds.default_context))
+
+
 # ------------------------------------------------------------------ generators
 
 
@@ -104,18 +126,18 @@ def _gen_hist(rng, tier):
     ops, n = [], n0
     for _ in range(rng.randint(1, 12 if tier == "quick" else 16)):
         r = rng.random()
-        if r < 0.2:
+        if r < 0.24:
             ops.append(["append", _member(rng, voc)]); n += 1
-        elif r < 0.35:
+        elif r < 0.4:
             xs = [_member(rng, voc) for _ in range(rng.choice([0, 1, 1, 2, 3]))]
             ops.append(["iadd", xs]); n += len(xs)
-        elif r < 0.6:
-            i = rng.randint(-(n + 2), n + 1) if rng.random() < 0.45 or n == 0 else rng.randrange(n)
+        elif r < 0.62:
+            i = rng.randint(-(n + 2), n + 1) if rng.random() < 0.35 or n == 0 else rng.randrange(n)
             if i == n:          # known finding C19-K1 (c[len(c)] = x): only ever generated as a last op, below
                 i = n + 1
             ops.append(["set", i, _member(rng, voc)])
-        elif r < 0.94:
-            if n and rng.random() < 0.6:
+        elif r < 0.96:
+            if n and rng.random() < 0.7:
                 i = rng.choice([0, n - 1, rng.randrange(n), -1, -n, rng.randrange(n) - n])
             else:
                 i = rng.randint(-(n + 2), n + 1)
@@ -128,8 +150,8 @@ def _gen_hist(rng, tier):
         ops.append(["set", n, _member(rng, voc)])
     absent = [m for m in MEMBERS if m not in voc]
     probe = sorted(set(voc[:6] + ([rng.choice(absent)] if absent else [])))
-    return {"kind": "hist", "head": head, "init": {"mode": mode, "items": items}, "extra": extra, "ops": ops,
-            "probe": probe}
+    return {"kind": "hist", "head": head, "g": rng.choice(["mem", "mem", "simple", "ds"]),
+            "init": {"mode": mode, "items": items}, "extra": extra, "ops": ops, "probe": probe}
 
 
 def _chain(cells, items, last=NIL):
@@ -177,7 +199,9 @@ def _gen_broken(rng, tier):
     reads = [["len"], ["iter"]] + [["get", i] for i in range(-(n + 2), n + 3)]
     reads += [["index", x] for x in voc + [absent]] + [["contains", x] for x in voc + [absent]]
     rng.shuffle(reads)
-    return {"kind": "broken", "head": rng.choice(["b", "u"]), "shape": shape, "triples": dedup, "reads": reads}
+    gk = "mem" if shape in ("two-rests", "two-firsts") else rng.choice(["mem", "mem", "simple", "ds"])
+    return {"kind": "broken", "head": rng.choice(["b", "u"]), "g": gk, "shape": shape, "triples": dedup,
+            "reads": reads}
 
 
 def gen_case(rng, tier, i):
@@ -299,7 +323,7 @@ def _snapshot(c, g, head, T, rev, l, probe, viol, where, extra0):
 def _run_hist(case):
     T = _terms(case["head"])
     rev = {v: k for k, v in T.items()}
-    g = Graph()
+    g, ds = _graph(case.get("g", "mem"))
     head = T[HEAD]
     items = case["init"]["items"]
     for s, p, o in case["extra"]:
@@ -315,12 +339,13 @@ def _run_hist(case):
     else:
         for s, p, o in _chain([HEAD + k for k in range(len(items))], items):
             g.add((T[s], T[p], T[o]))
-        c = Collection(g, head)
+        c = g.collection(head) if len(case["ops"]) % 2 else Collection(g, head)
         obs.append("ok")
     l = list(items)
     obs.append(_snapshot(c, g, head, T, rev, l, case["probe"], viol, "at start", extra0))
     mutated = False
-    stats = {"hist": 1, "start_len_%d" % len(items): 1, "mode_" + case["init"]["mode"]: 1}
+    stats = {"hist": 1, "start_len_%d" % len(items): 1, "mode_" + case["init"]["mode"]: 1,
+             "graph_" + case.get("g", "mem"): 1}
     for j, op in enumerate(case["ops"]):
         kind = op[0]
         n = len(l)
@@ -355,6 +380,7 @@ def _run_hist(case):
         else:
             raise ValueError(kind)
         obs.append(k)
+        stats["len_before_op_%s" % (n if n < 6 else "6+")] = stats.get("len_before_op_%s" % (n if n < 6 else "6+"), 0) + 1
         stats["op_" + kind] = stats.get("op_" + kind, 0) + 1
         stats["res_" + k] = stats.get("res_" + k, 0) + 1
         if kind in ("set", "del") and op[1] < 0:
@@ -367,6 +393,8 @@ def _run_hist(case):
         if k == "ok" and n > 0 and kind != "clear":
             mutated = True
         obs.append(_snapshot(c, g, head, T, rev, l, case["probe"], viol, f"after op {j} {op}", extra0))
+    if not _decoy_ok(ds):
+        viol.append("frame: the same head's list in another graph of the dataset was touched")
     if any(x in FALSY for x in items) or any(x in FALSY for op in case["ops"] for x in
                                              (op[1] if op[0] == "iadd" else op[1:])):
         stats["falsy_member"] = 1
@@ -377,7 +405,7 @@ def _run_hist(case):
 def _run_broken(case):
     T = _terms(case["head"])
     rev = {v: k for k, v in T.items()}
-    g = Graph()
+    g, ds = _graph(case.get("g", "mem"))
     for s, p, o in case["triples"]:
         g.add((T[s], T[p], T[o]))
     c = Collection(g, T[HEAD])
@@ -415,7 +443,7 @@ def _run_broken(case):
         if cyclic and full and k == "ok":
             viol.append(f"cyclic-no-raise: {r} on a cyclic chain returned {obs[-1]} instead of raising")
     after = sorted((rev.get(s, 999), rev.get(p, 999), rev.get(o, 999)) for s, p, o in g)
-    if after != before:
+    if after != before or not _decoy_ok(ds):
         viol.append("read-mutates: reads changed the graph")
     return {"obs": obs, "viol": viol, "nontrivial": raised,
             "key": repr((case["triples"], case["reads"])),
@@ -515,6 +543,8 @@ def shrink(case):
             yield {**case, "init": {**case["init"], "items": items[:i] + [lo] + items[i + 1:]}}
     if case["head"] == "u":
         yield {**case, "head": "b"}
+    if case.get("g", "mem") != "mem":
+        yield {**case, "g": "mem"}
     if case["init"]["mode"] == "triples":
         yield {**case, "init": {**case["init"], "mode": "ctor"}}
 
